@@ -283,8 +283,7 @@ theorem step_done (p : Program) (f : Frame) (v : Value) (vs : List Value) (t : N
 theorem runN_last (s s' : State) (n : Nat) (r : StepResult) (h : runN n s = .cont s') (hr : step s' = r)
     (hnc : ∀ x, r ≠ .cont x) : runN (n + 1) s = r := by
   rw [runN_add n 1 _ _ h]
-  simp only [runN, hr]
-  cases r <;> simp_all
+  cases r <;> simp_all [runN]
 
 /-- Toplevel expressions (all used): the values pile up on the value stack, the last one on top. -/
 theorem sim_top (p : Program) (ev : Ev) (ih : IH p ev) (b : Frame) :
